@@ -41,6 +41,11 @@ type simConn struct {
 	eofGap      time.Duration
 	deadlines   int // SetReadDeadline calls with a non-zero time
 	clears      int
+	// behaviours a real net.Conn may show and the receive loop must be indifferent to:
+	chop        []int // if non-empty: cap on the size of successive Reads (cycled)
+	chopAt      int
+	eofWithData bool // deliver the final bytes together with io.EOF when the peer closes at once
+	sawEOF      bool
 }
 
 func (c *simConn) clock() time.Time { return c.now }
@@ -64,6 +69,9 @@ func (c *simConn) advance(to time.Time) {
 func (c *simConn) Read(p []byte) (int, error) {
 	if len(p) == 0 {
 		return 0, nil
+	}
+	if c.sawEOF {
+		return 0, io.EOF
 	}
 	for len(c.pending) == 0 {
 		if len(c.segs) == 0 {
@@ -93,8 +101,19 @@ func (c *simConn) Read(p []byte) (int, error) {
 		c.advance(at)
 		c.pending = s.data
 	}
-	n := copy(p, c.pending)
+	lim := len(p)
+	if len(c.chop) > 0 {
+		if k := c.chop[c.chopAt%len(c.chop)]; k < lim {
+			lim = k
+		}
+		c.chopAt++
+	}
+	n := copy(p[:lim], c.pending)
 	c.pending = c.pending[n:]
+	if c.eofWithData && c.eof && c.eofGap == 0 && len(c.pending) == 0 && len(c.segs) == 0 {
+		c.sawEOF = true
+		return n, io.EOF
+	}
 	return n, nil
 }
 
@@ -115,6 +134,8 @@ type script struct {
 	segs   []seg
 	eof    bool
 	eofGap int
+	chop        []int
+	eofWithData bool
 	// what the generator knows independently of the library:
 	wantFrames [][]byte // frames that must be delivered
 	wantEnd    string   // I | E | T | L
@@ -227,6 +248,13 @@ func genScript(c *vh.Ctx) script {
 			s.eofGap = r.Intn(s.t8 + 1)
 		}
 	}
+	if r.Intn(3) == 0 { // short reads
+		s.chop = make([]int, 1+r.Intn(4))
+		for i := range s.chop {
+			s.chop[i] = 1 + r.Intn(7)
+		}
+	}
+	s.eofWithData = r.Intn(3) == 0
 	s.wantFrames, s.wantEnd = expect(s, cap)
 	return s
 }
@@ -296,7 +324,8 @@ func expect(s script, cap int) (frames [][]byte, end string) {
 func runScript(c *vh.Ctx, s script) {
 	cap := hsms.VerifFrameCap()
 	t0 := time.Unix(1_700_000_000, 0)
-	conn := &simConn{t0: t0, now: t0, lastArrival: t0, segs: append([]seg(nil), s.segs...), eof: s.eof, eofGap: time.Duration(s.eofGap) * unit}
+	conn := &simConn{t0: t0, now: t0, lastArrival: t0, segs: append([]seg(nil), s.segs...), eof: s.eof, eofGap: time.Duration(s.eofGap) * unit,
+		chop: s.chop, eofWithData: s.eofWithData}
 	var ev []string
 	badAlloc := 0
 	alloc := func(n int) []byte {
@@ -410,7 +439,7 @@ func readerPass(c *vh.Ctx) {
 
 func e2ePass(c *vh.Ctx) {
 	r := c.Rng
-	const t8 = 80 * time.Millisecond
+	const t8 = 200 * time.Millisecond // wide margins: the machine may be heavily loaded
 	nLinks := c.N
 	if nLinks < 4 {
 		nLinks = 4
@@ -468,6 +497,7 @@ func e2ePass(c *vh.Ctx) {
 			sleep time.Duration
 		}
 		var plan []chunk
+		idles := 0
 		for p := 0; p < len(stream); {
 			n := 1 + r.Intn(9)
 			if r.Intn(4) == 0 {
@@ -478,17 +508,21 @@ func e2ePass(c *vh.Ctx) {
 			}
 			var sl time.Duration
 			if bounds[p] {
-				if scenario == 3 || r.Intn(6) == 0 {
-					sl = 3 * t8 // idle: must not time out
+				if idles < 3 && (scenario == 3 || r.Intn(6) == 0) {
+					idles++
+					sl = 5 * t8 / 2 // idle for 2.5 x T8: must not time out
 				}
 			} else if scenario == 1 && stallFrom < 0 && p > len(stream)/2 {
 				stallFrom = p
-				sl = 5 * t8 // in-frame stall: must drop
+				sl = 4 * t8 // in-frame stall: must drop
 			} else if r.Intn(3) == 0 {
 				sl = time.Duration(r.Intn(3)) * time.Millisecond
 			}
 			plan = append(plan, chunk{n, sl})
 			p += n
+		}
+		if scenario == 1 && stallFrom < 0 {
+			scenario = 0 // no in-frame cut point after the middle of the stream: nothing was planted
 		}
 		go func() {
 			p := 0
@@ -543,7 +577,7 @@ func e2ePass(c *vh.Ctx) {
 			}
 		case 1:
 			if !peer.ReadClosed() {
-				c.Fail("e2e: link not dropped after an in-frame stall of 5 x T8", desc)
+				c.Fail("e2e: link not dropped after an in-frame stall of 4 x T8", desc)
 			}
 			// what was delivered must be a prefix of what was sent
 			if len(gotCopy) > len(want) || strings.Join(gotCopy, " ") != strings.Join(want[:len(gotCopy)], " ") {
